@@ -28,7 +28,7 @@ func init() {
 			return 2500
 		},
 		Run:          runC10,
-		BeatTimeoutS: 60,
+		BeatTimeoutS: 120,
 		Required:     []string{"faults_injected", "later_calls_checked", "invalid_requests_checked", "deadline_pairs_checked"},
 		Assumptions: []string{
 			"mask keys are replayed from a deterministic source (VerifSetMaskRand) so that the faulted run is byte-comparable with the clean run",
@@ -58,6 +58,7 @@ func c10Exec(cfg Cfg, prog []WStep, seed uint64, faultAt int, fk xport.FaultKind
 	pool := &TrackPool{}
 	c := newConn(nc, cfg, pool, 0)
 	w := NewWriter(c, cfg)
+	w.CloseStale = true
 	w.NC = nc
 	w.RunProgram(prog)
 	if faultAt >= 0 {
@@ -370,8 +371,8 @@ func c10ConcurrentFault(ctx *core.Ctx, out *core.Out) {
 	go func() { wg.Wait(); close(done) }()
 	select {
 	case <-done:
-	case <-time.After(60 * time.Second):
-		out.Violate("C10:hang-after-concurrent-fault", "callers queued behind a failed write never returned", map[string]interface{}{"cfg": cfg})
+	case <-time.After(30 * time.Second):
+		out.Violate("C10:hang-after-concurrent-fault", "callers queued behind a failed write had not returned 30 s later", map[string]interface{}{"cfg": cfg})
 		return
 	}
 	out.Count("faults_injected", 1)
